@@ -123,11 +123,16 @@ def expected(v, ec):
     return refmodel.enc_message(segs, ec), special
 
 
-def build(v, ec, special):
+def build(v, ec, special, how='constructor'):
     from hl7apy.core import Message
     sub, comp, text = shapes(v)
     C, S = ec['COMPONENT'], ec['SUBCOMPONENT']
-    m = Message('ADT_A01', version=v, encoding_chars=dict(ec))
+    if how == 'constructor':
+        m = Message('ADT_A01', version=v, encoding_chars=dict(ec))
+    else:
+        # an existing message (default set) is given the set through its public attribute before it is filled
+        m = Message('ADT_A01', version=v)
+        m.encoding_chars = dict(ec)
     m.msh.msh_3 = 'APP'
     m.msh.msh_9 = C.join(msh9(v)[k] for k in sorted(msh9(v)))
     m.msh.msh_10 = '1'
@@ -199,6 +204,20 @@ def check_set(res, v, t):
         res.classes['encoding-ok'] += 1
     if mllp != '\x0b' + got + '\r\x1c\r':
         res.violation('mllp|%s' % fam(v), 'to_mllp() does not frame to_er7()', point, 1)
+    res.transitions += 2
+    try:
+        m_a = build(v, ec, special, how='assign')
+        got_a = m_a.to_er7()
+        ec_a = m_a.encoding_chars
+    except Exception as e:
+        res.violation('assign-raises|%s|%s|%s' % (fam(v), shape, exc_class(e)), 'message.encoding_chars = %r (v%s) then filled: %s: %s' % (t, v, exc_class(e), e), point, 1)
+    else:
+        if got_a != want:
+            res.violation('separator|assign|%s|%s' % (fam(v), shape), 'v%s set %r assigned to an existing message: to_er7() = %r, reference %r' % (v, t, got_a, want), point, 1)
+        elif not same_ec(ec_a, ec, v):
+            res.violation('readback|assign|%s|%s' % (fam(v), shape), 'v%s set %r assigned to an existing message reads back as %r' % (v, t, ec_a), point, 1)
+        else:
+            res.classes['assigned-set-governs'] += 1
     site = lazy_site(v)
     if site:
         from hl7apy.core import Message
@@ -411,6 +430,15 @@ def run_unit(unit, tier):
             if v >= '2.7':
                 check_set(res, v, tuple(t) + ('#',))
                 check_set(res, v, tuple(t) + ('%',))
+        # every punctuation character in every role, the other roles keeping their default character
+        import string
+        for ch in string.punctuation:
+            if ch in '.|^&~\\#%' or ch in FIXED_MSH7 or ch in ''.join(msh9(v).values()):
+                continue        # characters of the recipe content (the structure id of MSH-9 holds an underscore from 2.4 on)
+            for i in range(5):
+                t = list(base)
+                t[i] = ch
+                check_set(res, v, tuple(t))
         # the dictionary read from one message belongs to that message: using another message afterwards must not change it
         a = Message('ADT_A01', version=v, encoding_chars=ec_of(('!', '$', '*', '?', '@')))
         held = a.encoding_chars
